@@ -25,8 +25,8 @@ import c09_fmt as F
 
 META = {
     "category": "proof",
-    "text": "Coq theorems (Damage/Props_C09.v, closed under the global context) over byte-level models of the SST, log and manifest readers on ARBITRARY bytes: the readers never panic, never run out of fuel, never allocate more than the file (SST, manifest) or a constant (log); damage never changes what a reader returned before reaching it; every block / frame / line a reader accepts has passed a checksum comparison; a damaged stored checksum is always detected; a damaged payload is detected under the explicit hypothesis that crc tells it from the original (crc is a Section variable: the detection half is partial by construction, CRC32C's error-detection properties are not proved); the unchecksummed regions (SST final block and trailing offset, log header-size byte, manifest separator lines) by case analysis with a _refuted witness where the property fails. The CRC-dependent half is decided on samples: files from the real builders, damaged exhaustively (bit flips, byte overwrites, adjacent multi-byte overwrites written with valid UTF-8 characters and varint-lengthening patterns, truncations, extensions, short sequences), read by the real readers under an allocation-counting allocator, compared with the pristine file and with the extracted model.",
-    "note": "Partial: detection inside checksummed regions is proved only under stated hypotheses on crc and otherwise sampled. Trusted: Coq kernel; tools/constants.py; ExtrOcamlBasic extraction + ocaml/damage driver (native crc32c, partition_point as a count); harness c09 (counting global allocator); Python crc32c / SipHash-2-4 / layout parser. Not modelled: BlockCursor::prev and the last-key half of Sst::metadata (run and checked against the pristine file, not against the model); std's partition_point on unsorted forged index keys. Known classes: log-tiny-frame-at-block-end, append-wellformed-suffix.",
+    "text": "Coq theorems (Damage/Props_C09.v, closed under the global context) over byte-level models of the SST, log and manifest readers on ARBITRARY bytes: the readers never panic, never run out of fuel, never allocate more than the file (SST, manifest) or a constant (log); damage never changes what a reader returned before reaching it; every block / frame / line a reader accepts has passed a checksum comparison; a damaged stored checksum is always detected; a damaged payload is detected under the explicit hypothesis that crc tells it from the original (crc is a Section variable: the detection half is partial by construction, CRC32C's error-detection properties are not proved); the unchecksummed regions (SST final block and trailing offset, log header-size byte, manifest separator lines) by case analysis with _refuted witnesses where the property fails (the SST final block's own setsum / smallest / biggest timestamp are accepted altered; a tiny log frame at a block end is skipped). The CRC-dependent half is decided on samples: files from the real builders, damaged exhaustively (bit flips, byte overwrites, adjacent multi-byte overwrites written with valid UTF-8 characters and varint-lengthening patterns, truncations, extensions, short sequences), read by the real readers under an allocation-counting allocator, compared with the pristine file and with the extracted model.",
+    "note": "Partial: detection inside checksummed regions is proved only under stated hypotheses on crc and otherwise sampled. Trusted: Coq kernel; tools/constants.py; ExtrOcamlBasic extraction + ocaml/damage driver (native crc32c, partition_point as a count); harness c09 (counting global allocator); Python crc32c / SipHash-2-4 / layout parser. BlockCursor::prev (with the restart-interval cache), backward walks and both keys of Sst::metadata are modelled and compared; every prev() is proved total, but that a whole backward walk ENDS on a CRC-consistent forged block is not proved (decided by samples: the harness reports RUNAWAY, the model FUEL). Not modelled: std's partition_point on unsorted forged index keys. Known classes: sst-final-block-metadata-unchecksummed, log-tiny-frame-at-block-end, append-wellformed-suffix.",
 }
 
 PROPS = "theories/Damage/Props_C09.v"
@@ -298,8 +298,12 @@ class Pristine:
 
 def classify(pr, line, patch, is_trunc):
     """outcome class of one damaged read against the pristine file.
-    Returns (class, detail); classes: error | identical | metadata-only | prefix-clean-end |
-    different | panic | abort | runaway"""
+    Returns (class, detail); classes: identical | file-size-only | error | prefix-clean-end |
+    final-meta | different | panic | abort | runaway.
+    final-meta: metadata() returned a smallest_timestamp / biggest_timestamp / setsum that the
+    pristine file does not hold (the detail names the fields and says whether every other
+    observation was identical); file-size-only: metadata() differs in file_size alone, which is
+    the true size of the damaged file."""
     if line.startswith("ABORT"):
         return "abort", line
     toks = line.split()
@@ -307,10 +311,13 @@ def classify(pr, line, patch, is_trunc):
         return "panic", line
     worst = "identical"
     detail = ""
+    others = []
 
     def bump(c, d):
         nonlocal worst, detail
-        order = ["identical", "metadata-only", "error", "prefix-clean-end", "different"]
+        order = ["identical", "file-size-only", "error", "prefix-clean-end", "final-meta", "different"]
+        if c not in ("final-meta", "file-size-only", "identical"):
+            others.append(c)
         if order.index(c) > order.index(worst):
             worst, detail = c, d
 
@@ -327,10 +334,14 @@ def classify(pr, line, patch, is_trunc):
                 bump("error", tok)
             elif tok != pr.t.get("meta"):
                 a, b = tok.split(":"), pr.t["meta"].split(":")
-                if a[1] != b[1] or a[2] != b[2]:
+                if len(a) != 7 or len(b) != 7 or a[1] != b[1] or a[2] != b[2]:
                     bump("different", "metadata first/last key " + tok)
                 else:
-                    bump("metadata-only", tok)
+                    fields = [nm for nm, x, y in zip(("smallest_timestamp", "biggest_timestamp", "setsum"), a[3:6], b[3:6]) if x != y]
+                    if fields:
+                        bump("final-meta", "metadata() presents %s that the file never held: %s (pristine %s)" % ("+".join(fields), tok, pr.t["meta"]))
+                    else:
+                        bump("file-size-only", tok)
             continue
         if tok.startswith(("fw:", "bw:", "it:", "ltb:")):
             name = tok.split(":", 1)[0]
@@ -383,6 +394,8 @@ def classify(pr, line, patch, is_trunc):
             elif tok != want:
                 bump("different", "point read %d: %s (pristine %s)" % (gi - 1, tok, want))
             continue
+    if worst == "final-meta":
+        detail += " [others identical]" if not others else " [others: %s]" % ",".join(sorted(set(others)))
     return worst, detail
 
 
@@ -393,38 +406,12 @@ def max_alloc(line):
 
 # ---------------------------------------------------------------------------------- normalising for the model
 def norm_impl(kind, line):
-    """drop what the model does not produce: backward walks, last key of metadata, log_to_builder
-    and log_to_setsum, the allocation figure"""
-    out = []
-    for tok in line.split():
-        if tok.startswith(("bw:", "ma=", "ltb", "lts")):
-            continue
-        if tok.startswith("meta:"):
-            p = tok.split(":")
-            p[2] = "-"
-            tok = ":".join(p)
-        out.append(tok)
-    return out
+    """drop what the model does not produce: log_to_builder and log_to_setsum, the allocation figure"""
+    return [tok for tok in line.split() if not tok.startswith(("ma=", "ltb", "lts"))]
 
 
 def model_agrees(kind, impl_line, model_line, notes):
-    a = norm_impl(kind, impl_line)
-    b = model_line.split()
-    if a == b:
-        return True
-    if kind == "sst" and len(a) == len(b):
-        # metadata(): the model has the first-key half only; an error of the last-key half (prev)
-        # cannot be predicted by it
-        ok = True
-        for x, y in zip(a, b):
-            if x == y:
-                continue
-            if x.startswith("meta!") and y.startswith("meta:"):
-                notes["meta_lastkey_unmodelled"] += 1
-                continue
-            ok = False
-        return ok
-    return False
+    return norm_impl(kind, impl_line) == model_line.split()
 
 
 # ---------------------------------------------------------------------------------- schema cross-check
@@ -455,7 +442,7 @@ def run(chk):
     ok_proof, info = vlib.proof_stage(chk, PROPS, MODULE, const_areas=("Damage",), pins_rel="pins/C09.v")
     okx, outx = vlib.coq_make(["theories/Damage/Extract.vo"])
     okm, outm, mx = vlib.ocaml_build("damage", "mx_damage")
-    okh, outh, (hxbin,) = vlib.cargo_build(["c09"])
+    okh, outh, (hxbin, lsmbin) = vlib.cargo_build(["c09", "lsm"])
     if not (okx and okm):
         raise RuntimeError("model build failed:\n" + outx[-1500:] + outm[-1500:])
     if not okh:
@@ -649,6 +636,8 @@ def run(chk):
     maxalloc = Counter()
     big_alloc = []
     samples = []
+    final_fields = Counter()
+    suffix_candidates, pending, combined = [], [], []
     for (b, p), line in zip(cases, ilines):
         is_trunc = bool(re.search(r"(^|,)t\d+", p))
         is_ext = "x" in p
@@ -663,9 +652,27 @@ def run(chk):
         if c == "prefix-clean-end" and not is_trunc:
             c = "different"
             detail = "clean end after a prefix without truncation: " + detail
-        if c == "different" and is_ext and b["kind"] in ("log", "mani") and wellformed_suffix(b, p):
-            c = "known:append-wellformed-suffix"
-            known_hits["append-wellformed-suffix"] += 1
+        if c == "final-meta":
+            if b["kind"] == "sst" and "[others identical]" in detail and confined_to_final_block(b, p):
+                c = "known:sst-final-block-metadata-unchecksummed"
+                known_hits["sst-final-block-metadata-unchecksummed"] += 1
+                for nm in ("smallest_timestamp", "biggest_timestamp", "setsum"):
+                    if nm in detail.split(" that the file")[0]:
+                        final_fields[nm] += 1
+            elif b["kind"] == "sst" and split_final_ops(b, p):
+                # damage in the final block TOGETHER with damage elsewhere: decided below by running the
+                # two parts on their own (the part in the final block must be in the known class by
+                # the narrow predicate, the other part is judged like any damage, and the combined
+                # outcome must be exactly the superposition of the two)
+                combined.append((b, p, line, detail, key))
+                continue
+            else:
+                c = "different"
+        if c == "different" and b["kind"] in ("log", "mani") and re.fullmatch(r"x[0-9a-f]+", p) and wellformed_suffix(b, p):
+            # decided below, on the verbose output: the pristine result intact and first, then more
+            suffix_candidates.append(len(pending))
+            pending.append((b, p, line, c, detail, key))
+            continue
         if c == "different" and b["kind"] == "log" and in_tiny_frame_class(b, p):
             c = "known:log-tiny-frame-at-block-end"
             known_hits["log-tiny-frame-at-block-end"] += 1
@@ -683,6 +690,46 @@ def run(chk):
             problems.append(("c09_%s_%s.json" % (c, b["id"]), replay_obj(b, p, line, c + ": " + detail)))
         if len(samples) < 3 and c == "error" and single:
             samples.append("%s %s -> %s" % (b["id"], p, line[:160]))
+
+    # ---- appended suffixes that were read as data: the narrow known class wants the pristine result
+    #      intact and first (and, for a manifest, the same state): decided on the verbose output
+    if pending:
+        vlines = hx.run([case_line(b, p, verbose=True) for b, p, _, _, _, _ in pending])
+        for (b, p, line, c, detail, key), vl in zip(pending, vlines):
+            if suffix_intact_first(b, vl):
+                c = "known:append-wellformed-suffix"
+                known_hits["append-wellformed-suffix"] += 1
+            else:
+                problems.append(("c09_different_%s.json" % b["id"], replay_obj(b, p, line, "different: " + detail)))
+            classes[c] += 1
+            by_region[key + " -> " + c] += 1
+
+    # ---- final-block damage combined with damage elsewhere
+    if combined:
+        sub = []
+        for b, p, line, detail, key in combined:
+            pa, pb = split_final_ops(b, p)
+            sub += [case_line(b, pa), case_line(b, pb)]
+        subl = hx.run(sub)
+        for k, (b, p, line, detail, key) in enumerate(combined):
+            pa, pb = split_final_ops(b, p)
+            la, lb = subl[2 * k], subl[2 * k + 1]
+            ca, da = classify(b["pristine"], la, pa, False)
+            cb, db = classify(b["pristine"], lb, pb, False)
+            strip = lambda l: [t for t in l.split() if not t.startswith(("meta", "ma="))]
+            meta = lambda l: [t for t in l.split() if t.startswith("meta")]
+            ok = (ca == "final-meta" and "[others identical]" in da and confined_to_final_block(b, pa)
+                  and cb in ("identical", "error", "file-size-only")
+                  and strip(line) == strip(lb) and (meta(line) == meta(la) or meta(line) == meta(lb)))
+            if ok:
+                c = "known:sst-final-block-metadata-unchecksummed"
+                known_hits["sst-final-block-metadata-unchecksummed"] += 1
+                final_fields["combined_with_detected_damage_elsewhere"] += 1
+            else:
+                c = "different"
+                problems.append(("c09_different_%s.json" % b["id"], replay_obj(b, p, line, "different: " + detail)))
+            classes[c] += 1
+            by_region[key + " -> " + c] += 1
 
     # ---- the same cases on the extracted model
     # an SST case costs the model some 5-10 ms, a log or manifest case a fraction of a millisecond:
@@ -754,18 +801,27 @@ def run(chk):
         if max_alloc(il) > 4 * len(data) + (64 << 10):
             problems.append(("c09_malformed_alloc_%s.json" % name, {"kind": "property", "what": "allocation of %d bytes reading %d arbitrary bytes" % (max_alloc(il), len(data)), "cmd": kind, "bytes": data.hex(), "impl": il[:400]}))
             continue
-        a = [t for t in il.split() if not t.startswith(("bw:", "ma="))]
-        if kind == "sst":
-            a = norm_impl("sst", il)
-        if a != ml.split() and not model_agrees(kind, il, ml, notes):
+        if not model_agrees(kind, il, ml, notes):
             if unsorted_index(kind, data):
                 notes["forged_unsorted_index_partition_point"] += 1
                 continue
             corr.append({"base": name, "patch": "-", "bytes": data.hex(), "impl": il[:500], "model": ml[:500], "cmd": kind})
     t_mal = time.time()
 
+    # ---- the consequence of an accepted final-block timestamp on a real store (known class
+    #      sst-final-block-metadata-unchecksummed): one flipped bit in the newest table of a store
+    probe = store_probe(lsmbin)
+    if probe.get("stale_or_vanished"):
+        known_hits["sst-final-block-metadata-unchecksummed"] += 1
+    if probe.get("crash"):
+        problems.append(("c09_store_probe.json", {"kind": "property", "what": "store crashes on reopen after a bit flip in an SST final block", "probe": probe}))
+
     # ---- corpus
     for name, obj, line, c in corpus_cases:
+        if c == "final-meta":
+            # (corpus files damage the final block only)
+            known_hits["sst-final-block-metadata-unchecksummed"] += 1
+            continue
         if c in ("different", "panic", "abort", "runaway"):
             problems.append(("c09_corpus_%s.json" % name, dict(obj, impl=line[:500], what="corpus case fails again: " + c)))
 
@@ -787,12 +843,13 @@ def run(chk):
             "log_allocations_bounded_by_constant_only": {"count": len(big_alloc), "examples": big_alloc[:3],
                                                          "note": "a damaged frame size makes LogIterator resize its buffer to that size (<= TABLE_FULL_SIZE per frame) before read_exact fails: bounded by a constant, not by the file length (theorem C09_log_reader_total_bounded)"},
         },
-        "accepted_metadata_only": classes.get("metadata-only", 0),
+        "final_block_fields_accepted": dict(final_fields),
         "correspondence": "impl (Rust, release + overflow-checks, counting allocator) vs extracted Coq model (OCaml, native crc32c) on %d of the damage cases (all of the unchecksummed regions, truncations, extensions, sequences, a stride of the rest) and all %d forged files; impl vs pristine file on all" % (n_model, len(mal)),
         "model_cases": n_model,
         "disagreements_impl_vs_model": len(corr), "disagreements_impl_vs_spec": len(problems),
         "model_gaps_tolerated": dict(notes),
         "schema_numbers_match_source": schema_ok,
+        "store_probe": probe,
         "timing_s": {"build": round(t_built - t_start, 1), "generate": round(t_gen - t_built, 1), "impl": round(t_impl - t_gen, 1),
                      "model": round(t_model - t_impl, 1), "malformed": round(t_mal - t_model, 1)},
         "trusted_base": [
@@ -807,7 +864,8 @@ def run(chk):
     chk.assumptions = [
         "detection of damage inside checksummed payloads assumes crc distinguishes the damaged payload from the original (hypothesis crc_detects / inequality of the two checksums in the theorems); for CRC32C this holds for single-bit flips and bursts up to 32 bits but is not proved here — decided on samples",
         "truncation at a record boundary (log frame, manifest edit) yields a shorter well-formed file: counted as clean prefix, not as a violation",
-        "BlockCursor::prev / the last key of metadata() are exercised against the pristine file but not modelled",
+        "termination of a whole backward walk on a CRC-consistent forged block is decided by samples only (each prev() call is proved total; progress of prev() on arbitrary restart arrays is not)",
+        "crc_detects_envelope: a frame whose length varint / tag was damaged so that a payload of another length is decoded is assumed to have another checksum (a 2^-32 event no property of CRC32C covers); every envelope byte of every sample is swept",
     ]
     for cls, n in known_hits.items():
         for _ in range(n):
@@ -826,8 +884,61 @@ def run(chk):
 
 KNOWN_TEXT = {
     "log-tiny-frame-at-block-end": "a log frame of at most 20 bytes that starts within 20 bytes of the next 1 MiB block boundary is silently skipped when its header-size byte is overwritten with 0 (LogIterator takes it for padding)",
-    "append-wellformed-suffix": "a suffix that is itself a well-formed, correctly checksummed log frame / manifest edit is read as data (indistinguishable from a legitimate append)",
+    "append-wellformed-suffix": "a single appended suffix that is itself a well-formed, correctly checksummed log frame / manifest separator is read as further data after the pristine result, which is returned intact and first (indistinguishable from a legitimate append)",
+    "sst-final-block-metadata-unchecksummed": "damage confined to the unchecksummed SST final block leaves the file opening and every key, value, timestamp of an entry and tombstone intact, but Sst::metadata() presents a smallest_timestamp / biggest_timestamp / setsum the file never held as genuine (lsmtk derives its next sequence number and the level order from them)",
 }
+
+
+STORE_HISTORY = "put 6b 7631\nput 61 01\nput 62 02\nput 6b 7632\nput 64 04\nflush\n"
+STORE_READS = "get 6b\nget 64\nget 61\n"
+
+
+def store_probe(lsmbin):
+    """a real lsmtk store (harness `lsm`): five puts and a flush give one table with
+    smallest_timestamp 3 and biggest_timestamp 7; one bit of the biggest_timestamp byte in the
+    table's unchecksummed final block is flipped (7 -> 3); the store is reopened and read"""
+    import shutil
+    root = "/dev/shm/c09-store-%d" % os.getpid()
+    shutil.rmtree(root, ignore_errors=True)
+    os.makedirs(root)
+    out = {"history": STORE_HISTORY.replace("\n", "; "), "reads": STORE_READS.replace("\n", "; ")}
+    try:
+        def session(d, script):
+            p = subprocess.run([lsmbin, d], input=script.encode(), stdout=subprocess.PIPE, stderr=subprocess.STDOUT, timeout=120)
+            return p.returncode, [x for x in p.stdout.decode("utf-8", "replace").split("\n") if x and not x.startswith("FILE")]
+        a = os.path.join(root, "a")
+        rc, lines = session(a, STORE_HISTORY)
+        ssts = [f for f in os.listdir(os.path.join(a, "sst")) if f.endswith(".sst")]
+        if rc != 0 or len(ssts) != 1:
+            out["skipped"] = "unexpected store layout: rc=%d ssts=%d %s" % (rc, len(ssts), lines[-3:])
+            return out
+        path = os.path.join("sst", ssts[0])
+        data = open(os.path.join(a, path), "rb").read()
+        L = F.SstLayout(data)
+        off = next(v0 for num, wt, t0, v0, v1, e in L.final_fields if num == 21)
+        out["table"] = ssts[0]
+        out["biggest_timestamp"] = data[off]
+        bit = 2
+        out["patch"] = "f%d:%d" % (off, bit)
+        if data[off] != 7:
+            out["skipped"] = "biggest_timestamp is %d, not 7" % data[off]
+            return out
+        b = os.path.join(root, "b")
+        shutil.copytree(a, b)
+        d2 = bytearray(data)
+        d2[off] ^= 1 << bit
+        open(os.path.join(b, path), "wb").write(bytes(d2))
+        rc1, r1 = session(a, STORE_READS)
+        rc2, r2 = session(b, STORE_READS)
+        out["pristine_reopen"] = r1
+        out["damaged_reopen"] = r2
+        out["crash"] = rc2 != 0 or any("PANIC" in x for x in r2)
+        out["stale_or_vanished"] = (not out["crash"]) and r2[:1] == ["OPEN ok"] and r1 != r2
+    except Exception as ex:          # the probe is an illustration; it never decides the verdict by failing
+        out["skipped"] = "probe failed: %r" % (ex,)
+    finally:
+        shutil.rmtree(root, ignore_errors=True)
+    return out
 
 
 def replay_obj(b, patch, line, what):
@@ -859,6 +970,50 @@ def in_tiny_frame_class(b, patch):
     off = int(m.group(1))
     nb = ((off >> 20) + 1) << 20
     return nb - off <= 20 and any(n.endswith(".hsz") and lo == off for n, lo, hi in b["regions"])
+
+
+def split_final_ops(b, patch):
+    """a patch made of flips / overwrites only, some inside the final block and some in front of
+    it: (the ops inside, the ops in front); None otherwise"""
+    ops = patch.split(",")
+    if not all(re.fullmatch(r"[fo]\d+:\d+", o) for o in ops):
+        return None
+    fbo = b["layout"].fbo
+    ina = [o for o in ops if int(re.match(r"[fo](\d+)", o).group(1)) >= fbo]
+    inb = [o for o in ops if int(re.match(r"[fo](\d+)", o).group(1)) < fbo]
+    if not ina or not inb:
+        return None
+    return ",".join(ina), ",".join(inb)
+
+
+def confined_to_final_block(b, patch):
+    """the damaged file has the length of the pristine one and differs from it only inside the
+    final block [final_block_offset, end of file)"""
+    d0 = b["bytes"]
+    d1 = F.patch_apply(d0, patch)
+    if len(d1) != len(d0):
+        return False
+    fbo = b["layout"].fbo
+    return all(x == y for x, y in zip(d0[:fbo], d1[:fbo]))
+
+
+def suffix_intact_first(b, vline):
+    """verbose output of a file extended by a suffix: the iterator returns the pristine items
+    first, unchanged, then more, and ends cleanly; a manifest opens to the pristine state"""
+    pr = b["pristine"]
+    got = None
+    for tok in vline.split():
+        if tok.startswith("it:") and not tok.startswith("it:open"):
+            got = parse_walk(tok)
+        if tok.startswith("op") and b["kind"] == "mani":
+            if tok.startswith("op:{"):
+                tok = "op:%016x" % F.fnv(F.FNV_INIT, tok[3:].encode())
+            if tok != pr.t.get("op"):
+                return False
+    if got is None or got[2] is None or got[3] != "end":
+        return False
+    want = pr.t["it"]["items"]
+    return len(got[2]) > len(want) and got[2][:len(want)] == want
 
 
 def wellformed_suffix(b, patch):
